@@ -140,6 +140,11 @@ def FMAPK(*keys):
     return {"k": "fmapk", "keys": list(keys)}
 
 
+def FMSTRUCTK(*keys):
+    """a typed map of structs {file f; int n} with the given keys"""
+    return {"k": "fmstructk", "keys": list(keys)}
+
+
 def FILEODD(src):
     """a file when the int input `src` is odd, null otherwise"""
     return {"k": "fileodd", "src": src}
